@@ -829,12 +829,13 @@ def run_case(case, ch: Choices) -> RunResult:
             res.observations.append("import-fails:%s" % str(e)[:80])
             return res
         captured: List[Any] = []
+        fail_flag = [False]          # the transport fails the request in flight (after it reached the peer)
 
         def make_client(pkg):
             def respond(cap):
                 captured.append(cap)
                 return 200, {"content-type": "application/json"}, b'{"data": {}}'
-            srv = SimServer(respond)
+            srv = SimServer(respond, fault_for=lambda cap: "read_timeout" if fail_flag[0] else None)
             cname = cfg.get("client_name", "Client")
             cmod = sub(pkg, cfg.get("client_file_name", "client"))
             cls = getattr(cmod, cname)
@@ -944,6 +945,10 @@ def run_case(case, ch: Choices) -> RunResult:
                     continue
             if client_per_operation and i > 0:
                 client = make_client(live)
+            # now and then the send itself fails (time-out while waiting for the answer): the caller keeps its built objects
+            # and goes on using them
+            inject = partner is None and ch.chance("h.transport_error", 1, 10)
+            fail_flag[0] = inject
             try:
                 cap, exc = send(client, op, live, prebuilt, partner)
                 if prebuilt is None and last_built[0]:
@@ -956,6 +961,8 @@ def run_case(case, ch: Choices) -> RunResult:
                 history.append(op)
                 res.violations.append(Violation("builder-raised", "operation #%d: %s" % (len(history) - 1, b), {"where": "build"}))
                 continue
+            finally:
+                fail_flag[0] = False
             history.append(op)
             vio_before = len(res.violations)
 
@@ -977,6 +984,13 @@ def run_case(case, ch: Choices) -> RunResult:
                 if _tainted:
                     key["shared_union_attr"] = True
                 res.violations.append(Violation(cls, "operation #%d: %s" % (len(history) - 1, detail), dict(key)))
+            if inject:
+                if exc is None or type(exc).__name__ != "ReadTimeout":
+                    V("fault-outcome", "the transport timed out while sending; the call %s" % ("returned" if exc is None else "raised %s: %s" % (type(exc).__name__, str(exc)[:200])))
+                else:
+                    res.bump("fault.transport_error_during_send")
+                trace.append("op#%d %s -> transport time-out injected" % (len(history) - 1, json.dumps(op)[:300]))
+                continue
             if exc is not None:
                 V("builder-raised", "sending the expression raised %s: %s" % (type(exc).__name__, str(exc)[:300]), exc=type(exc).__name__)
                 trace.append("op#%d %s -> raised %r" % (len(history) - 1, json.dumps(op)[:700], exc))
